@@ -85,6 +85,18 @@ def run(ctx):
         n_eval += 1
         t = o.split(); got = bytes.fromhex(t[4]) if t[4] != '-' else b''
         if t[0] != '1' or got != d: viol.append(dict(why='threaded encoder output does not decode to the input (status %s, %d bytes)' % (t[0], len(got)), line=l[:300]))
+    # ---- ThreadSanitizer build: runs, early lzma_end and re-initialisation histories must be free of data races
+    ts = compile_driver('tsan', 'drv_enc.c', 'drv_enc')
+    tl = []
+    for _ in range(60 if ctx.quick() else 1500):
+        d = xzgen.gen_data(rng, rng.choice([1, 100, 5000, 20000, 70000]))
+        cfg = rng.choice([0, 1]) | (1 << 8) | (rng.randrange(0, 4) << 12) | (rng.choice([0, 1, 2]) << 16) | (rng.choice([1, 2, 8]) << 20) | (rng.choice([0, 1 << 28, 1 << 29, 1 << 29]))
+        tl.append('enc 1 %d %d %d - %s' % (cfg, rng.choice([0, 2, 3]), rng.randrange(1 << 20), d.hex()))
+    os.environ['TSAN_OPTIONS'] = 'halt_on_error=1 exitcode=66'
+    touts, tf = run_lines(ts, tl)
+    os.environ.pop('TSAN_OPTIONS', None)
+    n_eval += len(tl)
+    for x in tf: viol.append(dict(why='threaded encoder under ThreadSanitizer: %s' % ('data race' if x[2] == 66 else 'crash / watchdog, rc %s' % x[2]), line=(x[0] or '')[:3000], stderr=x[1][-2500:]))
     # ---- flush / barrier histories on the threaded encoder under perturbation
     flines, fmeta = [], []
     for _ in range(40 if ctx.quick() else 800):
